@@ -146,11 +146,18 @@ type c08Loop struct {
 	accepted  int
 	bodies    [][]obs.Rec // record mode: entities of accepted requests of the current run
 	parseErr  string
+	// overlap cases: request blockAt waits (before anything is stored) until release is closed
+	blockAt  int
+	reached  chan struct{}
+	release  chan struct{}
+	inflight int
+	maxInfl  int
 }
 
 func (l *c08Loop) reset(failAt int) {
 	l.mu.Lock()
 	l.reqs, l.failAt, l.served400, l.conflicts, l.accepted, l.bodies, l.parseErr = 0, failAt, 0, 0, 0, nil, ""
+	l.blockAt, l.reached, l.release, l.maxInfl = 0, nil, nil, 0
 	l.mu.Unlock()
 }
 
@@ -162,7 +169,22 @@ func (l *c08Loop) ServeHTTP(w http.ResponseWriter, r *http.Request) {
 	if fail {
 		l.served400++
 	}
+	l.inflight++
+	if l.inflight > l.maxInfl {
+		l.maxInfl = l.inflight
+	}
+	block := l.blockAt != 0 && l.blockAt == l.reqs
+	reached, release := l.reached, l.release
 	l.mu.Unlock()
+	defer func() {
+		l.mu.Lock()
+		l.inflight--
+		l.mu.Unlock()
+	}()
+	if block {
+		close(reached)
+		<-release
+	}
 	if fail {
 		http.Error(w, "injected sink failure", http.StatusBadRequest)
 		return
@@ -502,6 +524,165 @@ func (s *c08Run) runJob(typ string, arm func()) c08Outcome {
 	return o
 }
 
+// runOverlap: run A of the job is held inside batch Fault.Hit (HTTP sink: the
+// remote end does not answer that request yet; dataset sink: at the hook right
+// after that batch's sink write, before its token is stored) and killed there;
+// the job is started again at once (run B, fresh objects like RunJob); then A
+// is let go and winds down. Event-driven, no sleeping. Judged here:
+//   - B must not have written to the sink while A was still in progress
+//     (at most one run of a job id writes to the sink at any time);
+//   - the persisted token must not go backwards when A finally finishes.
+//
+// The caller then applies the usual protocol (token-vs-sink, recovery run,
+// equality, idle run).
+func (s *c08Run) runOverlap(typ string) (o c08Outcome, fired bool, ok bool) {
+	f := s.c.Fault
+	jobA, err := s.jobFor(typ)
+	if err != nil {
+		o.Err = "harness: " + err.Error()
+		return o, false, true
+	}
+	var jobB *jobs.VerifC08Job
+	if js, err := s.env.sched.VerifC08Jobs(s.jc); err == nil {
+		for _, j := range js {
+			if j.IsFullSync() == (typ == "full") {
+				jobB = j
+			}
+		}
+	}
+	if jobB == nil {
+		o.Err = "harness: no second job object"
+		return o, false, true
+	}
+	vh.Clear("")
+	vh.ResetHits()
+	l := s.env.loop
+	l.reset(0)
+	reached, release := make(chan struct{}), make(chan struct{})
+	if s.c.Sched.Sink == "http" {
+		l.mu.Lock()
+		l.blockAt, l.reached, l.release = f.Hit, reached, release
+		l.mu.Unlock()
+	} else {
+		vh.OnPoint(f.Point, int64(f.Hit), func(string, int64) {
+			close(reached)
+			<-release
+		})
+	}
+	doneA := make(chan struct{})
+	go func() {
+		defer close(doneA)
+		defer func() {
+			if p := recover(); p != nil {
+				o.Panic = fmt.Sprint(p)
+			}
+		}()
+		jobA.Run()
+	}()
+	finishA := func() bool {
+		select {
+		case <-doneA:
+			return true
+		case <-time.After(c08RunWatchdog):
+			s.ctx.Out.Inconclusive(s.id, "C08", "watchdog: the killed run did not end after it was let go")
+			s.abort, s.stuck = true, true
+			return false
+		}
+	}
+	collect := func() {
+		vh.Clear("")
+		o.Hits = vh.Hits()
+		l.mu.Lock()
+		o.Requests, o.Served, o.Conflict = l.reqs, l.served400, l.conflicts
+		s.ctx.Out.StatMax("max:sink_requests_in_flight", int64(l.maxInfl))
+		l.mu.Unlock()
+		o.Found, o.Err, _ = s.env.sched.VerifC08LastRun(c08JobID)
+		s.ctx.Out.Stat("runs", 1)
+		s.ctx.Out.Stat("runs_"+typ, 1)
+	}
+	select {
+	case <-doneA: // the run ended before it reached that batch
+		collect()
+		return o, false, true
+	case <-time.After(c08RunWatchdog):
+		close(release)
+		s.ctx.Out.Inconclusive(s.id, "C08", "watchdog: run did not reach the batch it was to be held in")
+		s.abort = true
+		return o, false, finishA() && false
+	case <-reached:
+	}
+	s.ctx.Out.Stat("overlap_holds", 1)
+	tok0raw, tok0, ok0 := s.tokens()
+	s.env.sched.KillJob(c08JobID)
+	hitsBefore := vh.Hits()
+	l.mu.Lock()
+	accBefore := l.accepted
+	l.mu.Unlock()
+	// run B: started right after the kill, while A is still inside its batch
+	pB, hungB := c08RunWatched(jobB, func() { s.env.sched.KillJob(c08JobID) })
+	s.ctx.Out.Stat("overlap_restarts", 1)
+	hitsAfter := vh.Hits()
+	l.mu.Lock()
+	accAfter := l.accepted
+	l.mu.Unlock()
+	wroteB := accAfter > accBefore
+	for _, p := range []string{c08PIncrS, c08PFullS} {
+		if hitsAfter[p] > hitsBefore[p] {
+			wroteB = true
+		}
+	}
+	tok1raw, tok1, ok1 := s.tokens()
+	close(release)
+	if !finishA() {
+		return o, true, false
+	}
+	collect()
+	tok2raw, tok2, ok2 := s.tokens()
+	if hungB != "" {
+		s.ctx.Out.Inconclusive(s.id, "C08", "watchdog: the restarted run did not end ("+hungB+")")
+		s.abort = true
+		return o, true, false
+	}
+	if pB != "" {
+		s.viol("panic-in-run", "restarted job run panicked: "+pB, nil, nil)
+		return o, true, false
+	}
+	if wroteB {
+		s.ctx.Out.Stat("overlap_second_run_wrote", 1)
+		s.viol("two-runs-of-job-write-sink-concurrently/"+typ,
+			fmt.Sprintf("the job was killed while inside batch %d and started again at once: the second run delivered %d batch(es) to the sink while the killed run was still in progress (token before the kill %q, after the second run %q, after the killed run ended %q)",
+				f.Hit, hitsAfter[c08PIncrS]+hitsAfter[c08PFullS]-hitsBefore[c08PIncrS]-hitsBefore[c08PFullS], tok0raw, tok1raw, tok2raw), 0, 1)
+		return o, true, false
+	}
+	if typ == "incr" && ok0 && ok1 && ok2 {
+		for i := range tok2 {
+			if tok2[i] < tok1[i] || tok1[i] < tok0[i] {
+				s.viol("token-went-backwards/"+s.faultClass(), "the persisted token of an incremental job went backwards", []string{tok0raw, tok1raw}, tok2raw)
+				return o, true, false
+			}
+		}
+	}
+	return o, true, true
+}
+
+// checkMonotone: an incremental run never moves the persisted token backwards.
+func (s *c08Run) checkMonotone(typ string, before *c08Snapshot) {
+	if typ != "incr" || before == nil || !before.tokOK {
+		return
+	}
+	raw, per, ok := s.tokens()
+	if !ok {
+		return
+	}
+	s.ctx.Out.Stat("token_monotone_checks", 1)
+	for i := range per {
+		if i < len(before.tok) && per[i] < before.tok[i] {
+			s.viol("token-went-backwards/incr-run", "the persisted token went backwards across an incremental run", before.tokRaw, raw)
+			return
+		}
+	}
+}
+
 // ---- observations
 
 type c08View map[string]model.Ent
@@ -545,12 +726,15 @@ func (s *c08Run) feed(ds string, since uint64) ([]obs.Rec, error) {
 	return recs, err
 }
 
-// c08Same: same latest state of one entity; a deleted entity is equivalent to an absent one.
+// c08Same: same latest state of one entity, tombstones included: an entity
+// the source lists (live or deleted) must be listed by the sink with the same
+// deleted flag; the content of a tombstone is not compared.
 func c08Same(src *model.Ent, sink *model.Ent) bool {
-	srcGone := src == nil || src.Deleted
-	sinkGone := sink == nil || sink.Deleted
-	if srcGone || sinkGone {
-		return srcGone == sinkGone
+	if src == nil || sink == nil {
+		return src == nil && sink == nil
+	}
+	if src.Deleted || sink.Deleted {
+		return src.Deleted == sink.Deleted
 	}
 	return model.SameContent(src, sink)
 }
@@ -657,6 +841,17 @@ func (s *c08Run) checkEqual(class, when string) bool {
 	}
 	if c := s.classifyRegression(d, sink); c != "" {
 		class = c
+	}
+	tomb := true
+	for _, id := range d {
+		e, inSrc := src[id]
+		if _, inSink := sink[id]; !inSrc || !e.Deleted || inSink {
+			tomb = false
+		}
+	}
+	if tomb && strings.HasPrefix(class, "not-equal") {
+		// narrowest class: the only difference is deleted entities of the source that the sink does not list at all
+		class = "tombstone-missing-in-sink" + strings.TrimPrefix(class, "not-equal")
 	}
 	// cascade (C01): does the store itself refuse the source's version?
 	if s.storeDropsWrite(d[0]) {
@@ -807,9 +1002,6 @@ func (s *c08Run) checkTokenSafe(when string) {
 				e := full[q].Ent
 				c := c08Content(&e)
 				want = append(want, c)
-				if e.Deleted && !sinkHas[id] {
-					okEnt = true // deleted == absent
-				}
 				if inSink[id][c] {
 					okEnt = true
 				}
@@ -845,6 +1037,8 @@ func (s *c08Run) faultClass() string {
 		return "no-fault"
 	case "sink400":
 		return fmt.Sprintf("%s-run-sink-failure", typ)
+	case "overlap":
+		return fmt.Sprintf("%s-run-killed-inside-batch-and-restarted", typ)
 	default:
 		return fmt.Sprintf("%s-run-%s@%s", typ, f.Kind, strings.TrimPrefix(f.Point, "pipeline."))
 	}
@@ -876,6 +1070,10 @@ func (s *c08Run) waitLease() bool {
 // afterRun judges a run that was issued without an armed fault, or whose
 // fault did not fire.
 func (s *c08Run) afterPlainRun(i int, typ string, o c08Outcome, before *c08Snapshot) {
+	s.checkMonotone(typ, before)
+	if s.abort {
+		return
+	}
 	if o.Panic != "" {
 		s.viol("panic-in-run", "job run panicked: "+o.Panic, nil, nil)
 		return
@@ -1124,6 +1322,12 @@ func (s *c08Run) execute() {
 					s.env.sched.KillJob(c08JobID)
 				})
 			})
+		case "overlap":
+			var ok bool
+			o, fired, ok = s.runOverlap(st.Type)
+			if !ok {
+				return
+			}
 		case "crash": // only in the writer sub-child
 			_ = vh.Parse(fmt.Sprintf("%s=crash@%d", f.Point, f.Hit))
 			vh.BeforeCrash = func(name string, hit int64) {
@@ -1437,12 +1641,18 @@ func c08Faults(sc C08Sched, i int, m *c08RunMeasure) []c08Cand {
 			add("sink400", "", k, k >= 2 && k <= B)
 		}
 	}
+	if m.Type == "incr" {
+		// the run is killed while it is inside batch k and the job is started again at once
+		for k := 1; k <= B; k++ {
+			out = append(out, c08Cand{f: C08Fault{Kind: "overlap", Step: i, Point: pS, Hit: k, Recover: "incr", Batches: B, Requests: m.Requests}, nt: k < B})
+		}
+	}
 	return out
 }
 
 func c08Nontrivial(f C08Fault) bool {
 	switch f.Kind {
-	case "kill", "crash":
+	case "kill", "crash", "overlap":
 		return f.Hit >= 1 && f.Hit < f.Batches
 	case "sink400":
 		return f.Hit >= 2 && f.Hit <= f.Batches
@@ -1522,6 +1732,17 @@ func c08Jobs(ctx *Ctx) error {
 				}
 				break
 			}
+			for _, i := range runIdx {
+				m := probe.Runs[i]
+				if m.Type == "incr" && m.Hits[c08PIncrS] >= 2 {
+					B := int(m.Hits[c08PIncrS])
+					for _, k := range []int{1, 1 + fr.Intn(B)} {
+						f := C08Fault{Kind: "overlap", Step: i, Point: c08PIncrS, Hit: k, Recover: "incr", Batches: B, Requests: m.Requests}
+						cands = append(cands, c08Cand{f: f, nt: c08Nontrivial(f)})
+					}
+					break
+				}
+			}
 			ctx.Out.Stat("directed_schedules", 1)
 		} else if ctx.Tier == "thorough" {
 			// every batch index x fault kind x recovery type of one designated run (the one with most batches)
@@ -1543,7 +1764,7 @@ func c08Jobs(ctx *Ctx) error {
 				all = append(all, c08Faults(sc, i, probe.Runs[i])...)
 			}
 			// one of each kind, preferring positions with data before and after
-			for _, kind := range []string{"sink400", "kill", "crash"} {
+			for _, kind := range []string{"overlap", "sink400", "kill", "crash"} {
 				var nt, any []c08Cand
 				for _, c := range all {
 					if c.f.Kind != kind {
